@@ -275,7 +275,8 @@ def no_passthrough_oracle(ctx, wf, g, m, lang, replay):
 def source_type_oracle(ctx, wf, g, m, lang, bits, replay, passthrough=False):
     """each source gets the most general type acceptable to all of its uses. Two necessary conditions are checked against
     types computed independently of add_workflow: (acceptable) every tool's expression still type-checks when each workflow source is given
-    the type its node carries (a source whose node has no type, or Top, counts as Top) and every tool-output input is a fresh source;
+    the type its node carries (a source whose node has no type, or Top, counts as Top) and every tool-output input is the producer's expression
+    re-parsed in the same way (passthrough) resp. a fresh source (no passthrough);
     (most general) the type of each source in ONE valid typing - all tools parsed over shared, unfixed source objects, then fixed - is a
     subtype of the type its node carries"""
     from transforge import expr as E
@@ -322,11 +323,17 @@ def source_type_oracle(ctx, wf, g, m, lang, bits, replay, passthrough=False):
     # (acceptable)
     # (a source whose node has no type or Top is unconstrained: a fresh source; whether that is right is the second check)
     fixed = {s_: (E.Source(t) if t.operator != T.Top else E.Source()) for s_, t in carried.items()}
+    made2 = {}
     for out, text, ins in wf["apps"]:
         if not all(x in fixed or x not in src for x in ins):
             continue
+        if passthrough and not all(x in fixed or x in made2 for x in ins):
+            continue
         try:
-            lang.parse_expr(text, *[fixed[x] if x in fixed else E.Source() for x in ins])     # (tool outputs as fresh sources in either mode: weaker, still necessary)
+            # tool outputs: with passthrough the producer's expression (re-parsed over the carried source types) IS the input - its type may be
+            # more specific than what the consumer's annotation says (a producer returning Bottom under `(1 : C * B)` is accepted where a fresh
+            # source, which takes the annotated type, is not: thorough seed 71); without passthrough a fresh stand-in source, as in the code
+            made2[out] = lang.parse_expr(text, *[fixed[x] if x in fixed else (made2[x] if passthrough else E.Source()) for x in ins])
         except Exception as ex:  # noqa
             ctx.fail(f"workflow {wf} ({'with' if passthrough else 'without'} passthrough): the sources carry the types { {k: str(v) for k, v in carried.items()} }, but tool {out} = `{text}` over "
                      f"{ins} does not accept them ({type(ex).__name__}): not a type acceptable to all uses",
